@@ -280,6 +280,13 @@ def main(tier):
     if not ok:
         c.finish(rule="build failed")
     drv, vh = vlib.DRIVER, vlib.VH["debug"]
+    # ---- the parser half: Blocks_valid / Blocks_lists_only_items (Props/Blocks.v: every tree the block phase
+    # returns is valid, for every option set and input) and inline_values_accepted / insert_emph_values_inline
+    # (Props/Inlines.v: every value the inline phase constructs is an inline the containment table accepts);
+    # both parser models are tied to the compiled parser here (full scopes in the thorough tier)
+    from checks import layerc
+    layerc.blocks(c, tier, 0.35 if quick else 1.0)
+    layerc.inlines(c, tier, 0.3 if quick else 1.0)
 
     # ---- correspondence nodes.table: the whole can_contain_type table, block, contains_inlines
     kinds = ast_kinds()
